@@ -110,7 +110,7 @@ func SpliceAndCheck(dir, setupFile, funcs string, imp types.Importer) string {
 		}
 		conf := types.Config{Importer: imp, Error: func(err error) {
 			msg := err.Error()
-			if strings.Contains(msg, "imported and not used") {
+			if strings.Contains(msg, "imported") && strings.Contains(msg, "and not used") {
 				return
 			}
 			if i := strings.Index(msg, "undefined: "); i >= 0 {
